@@ -1,7 +1,7 @@
 From Coq Require Import Extraction ExtrOcamlBasic.
 From Cicada Require Import Base.Chars Base.Tag Model.Tokenizer Model.Redirect Model.Cmds
-  Model.Highlight Model.WordStart Model.FirstWord Model.C05Classes.
+  Model.Highlight Model.WordStart Model.FirstWord Model.C05Classes Model.Alias Model.AliasSites.
 Extraction Language OCaml.
-Extraction "c05_model.ml" parse_line is_complete is_arithmetic line_to_cmds plan_and_lookup from_tokens tokens_to_redirections
+Extraction "c05_model.ml" parse_line is_complete is_arithmetic line_to_cmds plan_and_lookup expand_alias_sites from_tokens tokens_to_redirections
   plans_empty_command highlight highlight_tokens find_token_range escaped_word_start
   lookahead_guarded rparen_guarded known_foreign.
